@@ -1,5 +1,5 @@
 import FrappyModel.Spec.C18
-/- helper lemmas about the control hand-over model -/
+/- helper lemmas about the control hand-over model (with failing `set_control_active` methods) -/
 namespace Frappy.Control
 open Frappy.Spec.C18
 
@@ -9,84 +9,229 @@ open Frappy.Spec.C18
 theorem mem_inputsOf (cfg : Cfg) (o j : Nat) : j ∈ inputsOf cfg o ↔ j < cfg.n ∧ cfg.outOf j = o := by
   simp [inputsOf]
 
-@[simp] theorem deactivate_cb (i : Nat) (s : St) : (deactivate i s).cb = s.cb := by
-  unfold deactivate; split <;> rfl
+@[simp] theorem mark_cb (cfg : Cfg) (i : Nat) (b : Bool) (s : St) : (mark cfg i b s).cb = s.cb := rfl
+@[simp] theorem mark_ok (cfg : Cfg) (i : Nat) (b : Bool) (s : St) : (mark cfg i b s).ok = s.ok := rfl
+theorem mark_act (cfg : Cfg) (i : Nat) (b : Bool) (s : St) (j : Nat) :
+    (mark cfg i b s).act j = if j = i then b else s.act j := rfl
 
-theorem deactivate_act (i : Nat) (s : St) (j : Nat) :
-    (deactivate i s).act j = if j = i then false else s.act j := by
-  unfold deactivate
-  by_cases h : s.act i = true
-  · simp [h]
-  · simp only [h]
+@[simp] theorem setAct_cb (cfg : Cfg) (f : Faults) (i : Nat) (b : Bool) (s : St) : (setAct cfg f i b s).cb = s.cb := by
+  unfold setAct; split <;> rfl
+
+/-- the flag after `set_control_active(b)`: changed unless the method raised before it got there -/
+theorem setAct_act (cfg : Cfg) (f : Faults) (i : Nat) (b : Bool) (s : St) (j : Nat) :
+    (setAct cfg f i b s).act j = if j = i then (if f i b = .failBefore then s.act i else b) else s.act j := by
+  unfold setAct
+  cases h : f i b <;> by_cases hj : j = i <;> simp [hj, mark_act]
+
+/-- the operation goes on after `set_control_active(b)` only when it returned -/
+theorem setAct_ok (cfg : Cfg) (f : Faults) (i : Nat) (b : Bool) (s : St) :
+    (setAct cfg f i b s).ok = (s.ok && decide (f i b = .ok)) := by
+  unfold setAct
+  cases h : f i b <;> simp
+
+@[simp] theorem deactivate_cb (cfg : Cfg) (f : Faults) (i : Nat) (s : St) : (deactivate cfg f i s).cb = s.cb := by
+  unfold deactivate; split <;> simp
+
+/-- a `deactivate_control` switches nobody on and touches only its own flag -/
+theorem deactivate_mono (cfg : Cfg) (f : Faults) (i : Nat) (s : St) (j : Nat)
+    (h : (deactivate cfg f i s).act j = true) : s.act j = true := by
+  unfold deactivate at h
+  by_cases ha : s.act i = true
+  · simp only [ha, if_true] at h
+    rw [setAct_act] at h
     by_cases hj : j = i
-    · subst hj; simpa using h
-    · simp [hj]
+    · subst hj; exact ha
+    · simpa [hj] using h
+  · simpa [ha] using h
 
-@[simp] theorem deactivateAll_cb (skip : Option Nat) (l : List Nat) : ∀ s, (deactivateAll skip l s).cb = s.cb := by
+theorem deactivate_frame (cfg : Cfg) (f : Faults) (i : Nat) (s : St) (j : Nat) (hj : j ≠ i) :
+    (deactivate cfg f i s).act j = s.act j := by
+  unfold deactivate
+  split
+  · rw [setAct_act]; simp [hj]
+  · rfl
+
+theorem deactivate_ok_le (cfg : Cfg) (f : Faults) (i : Nat) (s : St) (h : (deactivate cfg f i s).ok = true) :
+    s.ok = true := by
+  unfold deactivate at h
+  split at h
+  · rw [setAct_ok] at h; simp at h; exact h.1
+  · exact h
+
+/-- when `deactivate_control` returned, the input is not marked -/
+theorem deactivate_done (cfg : Cfg) (f : Faults) (i : Nat) (s : St) (h : (deactivate cfg f i s).ok = true) :
+    (deactivate cfg f i s).act i = false := by
+  unfold deactivate at h ⊢
+  by_cases ha : s.act i = true
+  · simp only [ha, if_true] at h ⊢
+    rw [setAct_ok] at h
+    have hf : f i false = .ok := by simp at h; exact h.2
+    rw [setAct_act]; simp [hf]
+  · simp [ha]
+
+@[simp] theorem deactivateAll_cb (cfg : Cfg) (f : Faults) (skip : Option Nat) (l : List Nat) :
+    ∀ s, (deactivateAll cfg f skip l s).cb = s.cb := by
   induction l with
   | nil => intro s; rfl
-  | cons i is ih => intro s; simp only [deactivateAll]; rw [ih]; split <;> simp
-
-theorem deactivateAll_act (skip : Option Nat) (l : List Nat) : ∀ s j,
-    (deactivateAll skip l s).act j = if j ∈ l ∧ skip ≠ some j then false else s.act j := by
-  induction l with
-  | nil => intro s j; simp [deactivateAll]
   | cons i is ih =>
-    intro s j
+    intro s
     simp only [deactivateAll]
-    rw [ih]
-    by_cases hsk : skip = some i
-    · simp only [hsk, if_true]
-      by_cases hj : j = i
-      · subst hj; simp
-      · have : ¬ (some i = some j) := by intro h; exact hj (Option.some.inj h).symm
-        simp [hj]
-    · simp only [hsk, if_false, deactivate_act]
-      by_cases hj : j = i
-      · subst hj; simp [hsk]
-      · simp [hj]
+    split
+    · rfl
+    · rw [ih]; split <;> simp
+
+theorem deactivateAll_mono (cfg : Cfg) (f : Faults) (skip : Option Nat) (l : List Nat) :
+    ∀ s j, (deactivateAll cfg f skip l s).act j = true → s.act j = true := by
+  induction l with
+  | nil => intro s j h; exact h
+  | cons i is ih =>
+    intro s j h
+    simp only [deactivateAll] at h
+    split at h
+    · exact h
+    · have := ih _ j h
+      split at this
+      · exact this
+      · exact deactivate_mono cfg f i s j this
+
+theorem deactivateAll_frame (cfg : Cfg) (f : Faults) (skip : Option Nat) (l : List Nat) :
+    ∀ s j, (j ∉ l ∨ skip = some j) → (deactivateAll cfg f skip l s).act j = s.act j := by
+  induction l with
+  | nil => intro s j _; rfl
+  | cons i is ih =>
+    intro s j hj
+    simp only [deactivateAll]
+    split
+    · rfl
+    · have hj' : j ∉ is ∨ skip = some j := by
+        rcases hj with hj | hj
+        · exact Or.inl (fun hm => hj (List.mem_cons_of_mem _ hm))
+        · exact Or.inr hj
+      rw [ih _ j hj']
+      split
+      · rfl
+      · rename_i hsk
+        have hne : j ≠ i := by
+          rcases hj with hj | hj
+          · intro e; exact hj (e ▸ List.mem_cons_self)
+          · intro e; rw [e] at hj; exact hsk hj
+        exact deactivate_frame cfg f i s j hne
+
+theorem deactivateAll_ok_le (cfg : Cfg) (f : Faults) (skip : Option Nat) (l : List Nat) :
+    ∀ s, (deactivateAll cfg f skip l s).ok = true → s.ok = true := by
+  induction l with
+  | nil => intro s h; exact h
+  | cons i is ih =>
+    intro s h
+    simp only [deactivateAll] at h
+    by_cases hs : s.ok = true
+    · exact hs
+    · simp only [hs] at h
+      simp at hs
+      simp [hs] at h
+
+/-- when the loop over the registry went through, none of its entries (except the one skipped) is marked -/
+theorem deactivateAll_done (cfg : Cfg) (f : Faults) (skip : Option Nat) (l : List Nat) :
+    ∀ s, (deactivateAll cfg f skip l s).ok = true → ∀ j ∈ l, skip ≠ some j →
+      (deactivateAll cfg f skip l s).act j = false := by
+  induction l with
+  | nil => intro s _ j hj; cases hj
+  | cons i is ih =>
+    intro s h j hj hsk
+    have hs : s.ok = true := deactivateAll_ok_le cfg f skip (i :: is) s h
+    simp only [deactivateAll, hs, Bool.not_true, Bool.false_eq_true, if_false] at h ⊢
+    by_cases hji : j = i
+    · subst hji
+      have hsk' : ¬ skip = some j := hsk
+      simp only [hsk', if_false] at h ⊢
+      have hok := deactivateAll_ok_le cfg f skip is _ h
+      have hoff := deactivate_done cfg f j s hok
+      cases hr : (deactivateAll cfg f skip is (deactivate cfg f j s)).act j with
+      | false => rfl
+      | true => rw [deactivateAll_mono cfg f skip is _ j hr] at hoff; cases hoff
+    · have hmem : j ∈ is := by
+        cases hj with
+        | head => exact absurd rfl hji
+        | tail _ hm => exact hm
+      exact ih _ h j hmem hsk
 
 theorem setCb_cb (cfg : Cfg) (o : Nat) (c : Option Nat) (s : St) (o' : Nat) :
     (setCb cfg o c s).cb o' = if o' = o then c else s.cb o' := rfl
 @[simp] theorem setCb_act (cfg : Cfg) (o : Nat) (c : Option Nat) (s : St) : (setCb cfg o c s).act = s.act := rfl
-@[simp] theorem setActive_cb (cfg : Cfg) (k : Nat) (s : St) : (setActive cfg k s).cb = s.cb := rfl
-theorem setActive_act (cfg : Cfg) (k : Nat) (s : St) (j : Nat) :
-    (setActive cfg k s).act j = if j = k then true else s.act j := rfl
+@[simp] theorem setCb_ok (cfg : Cfg) (o : Nat) (c : Option Nat) (s : St) : (setCb cfg o c s).ok = s.ok := rfl
 
-theorem activate_cb (cfg : Cfg) (k : Nat) (s : St) (o : Nat) :
-    (activate cfg k s).cb o = if o = cfg.outOf k then some k else s.cb o := by
-  simp [activate, setCb_cb]
+/-! frame: what an operation on one output leaves alone (no bounds needed) -/
 
-theorem activate_act (cfg : Cfg) (k : Nat) (s : St) (j : Nat) :
-    (activate cfg k s).act j =
-      if j = k then true else if j < cfg.n ∧ cfg.outOf j = cfg.outOf k then false else s.act j := by
-  simp only [activate, setActive_act, setCb_act]
-  by_cases h : j = k
-  · simp [h]
-  · simp only [h, if_false]
-    rw [deactivateAll_act]
-    have : some k ≠ some j := by intro e; exact h (Option.some.inj e).symm
-    simp [this, mem_inputsOf]
+theorem activate_frame_cb (cfg : Cfg) (f : Faults) (k : Nat) (s : St) (o : Nat) (ho : o ≠ cfg.outOf k) :
+    (activate cfg f k s).cb o = s.cb o := by
+  simp only [activate]
+  split
+  · simp
+  · rw [setAct_cb, setCb_cb]; simp [ho]
 
-theorem selfControlled_cb (cfg : Cfg) (o : Nat) (s : St) (o' : Nat) :
-    (selfControlled cfg o s).cb o' = if o' = o then none else s.cb o' := by
+theorem activate_frame_act (cfg : Cfg) (f : Faults) (k : Nat) (s : St) (i : Nat) (hi : cfg.outOf i ≠ cfg.outOf k) :
+    (activate cfg f k s).act i = s.act i := by
+  have hik : ¬ i = k := by intro e; rw [e] at hi; exact hi rfl
+  have hfr := deactivateAll_frame cfg f (some k) (inputsOf cfg (cfg.outOf k)) s i
+    (Or.inl (fun hm => hi ((mem_inputsOf ..).1 hm).2))
+  simp only [activate]
+  split
+  · exact hfr
+  · rw [setAct_act]; simp only [hik, if_false, setCb_act]; exact hfr
+
+theorem selfControlled_frame_cb (cfg : Cfg) (f : Faults) (o0 : Nat) (s : St) (o : Nat) (ho : o ≠ o0) :
+    (selfControlled cfg f o0 s).cb o = s.cb o := by
   unfold selfControlled
-  cases h : s.cb o with
-  | none =>
-    by_cases ho : o' = o
-    · simp [ho, h]
-    · simp [ho]
-  | some c => simp [setCb_cb]
+  split
+  · rfl
+  · simp only []
+    split
+    · simp
+    · rw [setCb_cb]; simp [ho]
 
-theorem selfControlled_act (cfg : Cfg) (o : Nat) (s : St) (j : Nat) :
-    (selfControlled cfg o s).act j =
-      if s.cb o ≠ none ∧ j < cfg.n ∧ cfg.outOf j = o then false else s.act j := by
+theorem selfControlled_frame_act (cfg : Cfg) (f : Faults) (o0 : Nat) (s : St) (i : Nat) (hi : cfg.outOf i ≠ o0) :
+    (selfControlled cfg f o0 s).act i = s.act i := by
+  have hfr := deactivateAll_frame cfg f none (inputsOf cfg o0) s i (Or.inl (fun hm => hi ((mem_inputsOf ..).1 hm).2))
   unfold selfControlled
-  cases h : s.cb o with
-  | none => simp
+  split
+  · rfl
+  · simp only []
+    split
+    · exact hfr
+    · rw [setCb_act]; exact hfr
+
+/-- an `activate_control` that returned: the output names `k`, and among its inputs exactly `k` is marked -/
+theorem activate_taken (cfg : Cfg) (f : Faults) (k : Nat) (s : St) (hok : (activate cfg f k s).ok = true) :
+    (activate cfg f k s).cb (cfg.outOf k) = some k ∧
+    ∀ i, i < cfg.n → cfg.outOf i = cfg.outOf k → ((activate cfg f k s).act i = true ↔ i = k) := by
+  have hdone := deactivateAll_done cfg f (some k) (inputsOf cfg (cfg.outOf k)) s
+  simp only [activate] at hok ⊢
+  generalize deactivateAll cfg f (some k) (inputsOf cfg (cfg.outOf k)) s = s1 at *
+  by_cases hok1 : s1.ok = true
+  · simp only [hok1, Bool.not_true, Bool.false_eq_true, if_false] at hok ⊢
+    rw [setAct_ok] at hok
+    have hf : f k true = .ok := by simp at hok; exact hok.2
+    refine ⟨by rw [setAct_cb, setCb_cb]; simp, fun i hi hio => ?_⟩
+    rw [setAct_act]
+    by_cases hik : i = k
+    · simp [hik, hf]
+    · have := hdone hok1 i ((mem_inputsOf ..).2 ⟨hi, hio⟩) (by intro e; exact hik (Option.some.inj e).symm)
+      simp [hik, this]
+  · have hfalse : s1.ok = false := by simpa using hok1
+    simp [hfalse] at hok
+
+/-- a `self_controlled` that returned: the output names itself -/
+theorem selfControlled_taken_cb (cfg : Cfg) (f : Faults) (o0 : Nat) (s : St) (hok : (selfControlled cfg f o0 s).ok = true) :
+    (selfControlled cfg f o0 s).cb o0 = none := by
+  unfold selfControlled at hok ⊢
+  cases hc : s.cb o0 with
+  | none => simpa using hc
   | some c =>
-    simp only
-    rw [deactivateAll_act]
-    simp [mem_inputsOf]
+    simp only [hc] at hok ⊢
+    by_cases hok1 : (deactivateAll cfg f none (inputsOf cfg o0) s).ok = true
+    · simp only [hok1, Bool.not_true, Bool.false_eq_true, if_false]
+      rw [setCb_cb]; simp
+    · have hfalse : (deactivateAll cfg f none (inputsOf cfg o0) s).ok = false := by simpa using hok1
+      simp [hfalse] at hok
 
 end Frappy.Control
